@@ -19,6 +19,7 @@ func init() {
 			"R2 configuration values used as sizes or slice bounds by a decoder are validated by an assertion in the constructor; R3 every loop of a decoder passes a read of the source whose error reaches a guard (no spinning at end-of-stream) and is bounded by the configured maximum; " +
 			"R4 no frame is delivered on the strength of a declared length alone: what is handed downstream is a fully read buffer or an exact-length reader (io.ErrUnexpectedEOF on early end), never a bare io.LimitReader over the source, directly or inside io.MultiReader; " +
 			"R5 no error of a read (Read, ReadFull, ReadUvarint, CopyN, ReadFrom, ReadAll, ToBytes/ToReader) is dropped in codec/* and utils; R6 no slice bound of the form len(a)-len(b) without a dominating len(a) >= len(b) guard (no runtime fault on short input). " +
+			"ALSO: other consumers of the exact-length reader (e.g. a WriteTo) report truncation on the count still owed after their own reads. " +
 			"DOES NOT DECIDE: behaviour on specific adversarial strings beyond the guards, that the next handler drains the lazy body, int overflow of configuration arithmetic on 32-bit.",
 		Assumptions: []string{"read errors raised as panics are routed to exceptions and close the channel (C07)"},
 		Run:         runC08,
